@@ -130,7 +130,9 @@ fn call_begin(id: u32) -> u64 {
             }
         }
     }
+    let st = w().ops[id as usize].obj.and_then(|o| w().objs.get(o).and_then(|x| x.peek())).map(|p| (p.0, p.1));
     let r = &mut w().ops[id as usize];
+    r.state_at_inv = st;
     r.inv = Some(s);
     r.thread = Some(me);
     r.outcome = CallOutcome::InCall;
@@ -683,9 +685,11 @@ fn await_boxed(h: usize, mut fut: BoxedHandle, keep: Option<Arc<Desync<Val>>>, o
             }
             Err(e) => {
                 let m = panic_msg(&e);
-                ev("poll_panicked", h as i64, 0);
+                let sp = ev("poll_panicked", h as i64, 0);
+                let me = me();
                 let r = &mut w().hrec[h];
                 r.panicked = Some(m);
+                r.panicked_at = Some((sp, me));
                 r.awaiting = None;
                 dispose(h, fut, keep);
                 put_handle(h, HandleSlot::Empty);
